@@ -22,6 +22,7 @@ LEVEL_ASSUMPTIONS = ["model of the documented decoding in this file "
                      "(model_decode), validated on the two documented "
                      "map_games examples at start-up"]
 EXHAUSTIVE_WHOLE = False
+_XBUF: dict = {}
 
 
 def REQUIRED(tier):  # noqa: N802
@@ -142,7 +143,14 @@ def check_decode(ctx, n, r, days, perm, dest, use_object, sp=None):
             "perm": [int(v) for v in perm], "object": bool(use_object)}
     ctx.case()
     ctx.count("decodes")
-    x = np.array(perm, dtype=sp.dtype if sp is not None else np.int64)
+    # one permutation buffer per (length, type), overwritten in place
+    xdt = np.dtype(sp.dtype if sp is not None else np.int64)
+    x = _XBUF.get((len(perm), str(xdt)))
+    if x is None:
+        if len(_XBUF) > 64:
+            _XBUF.clear()
+        x = _XBUF[(len(perm), str(xdt))] = np.empty(len(perm), xdt)
+    x[:] = perm
     if use_object:
         enc, gp = use_object
         gp[:, :] = dest
